@@ -354,12 +354,44 @@ def _cfg(c):
     return f
 
 
+def _tune_Tn_top(c, am, hi, lo):
+    """Nucleation temperature at which the LTE root sits c['tune_top'] below the top min(vJ, fastestDeflag) of the
+    deflagration/hybrid window: the switch between 'root found' and 'runaway' is made there, so the lattice needs points
+    just below it (a solver that searches a slightly too small window reports a runaway although the pressure at the true
+    top is positive). Only chooses an INPUT; nothing of the verdict depends on how well the tuning worked."""
+    from scipy.optimize import brentq
+
+    from .. import wg
+
+    def g(Tn):
+        m = wg.setup_manager(am, float(Tn), hi, lo, M=c["M"], N=11, cfg=_cfg(c))
+        h = m.hydrodynamics
+        v = float(m.wallSpeedLTE())
+        top = min(float(h.vJ), float(h.fastestDeflag()))
+        return (top - c["tune_top"]) - (v if 0 < v < 1 else top + 1.0)  # > 0: the root is below the target
+
+    a, b = c["Tn_bracket"]
+    try:
+        if not (g(a) < 0 < g(b)):
+            return None
+        return float(brentq(g, a, b, xtol=1e-3, rtol=1e-12, maxiter=40))
+    except Exception:
+        return None
+
+
 def case_e2e(c: dict) -> dict:
     from .. import wg
 
     logging.disable(logging.CRITICAL)
     r = Rel(c["id"])
     am, hi, lo = _model(c)
+    if c.get("tune_top"):
+        c = dict(c)
+        c["Tn"] = _tune_Tn_top(c, am, hi, lo)
+        if c["Tn"] is None:
+            return r.result(inadmissible="no nucleation temperature with the LTE root at the requested distance below the window top in the bracket")
+        r.detail.update(tuned_Tn=c["Tn"])
+        r.tag("root-tuned-below-window-top")
     try:
         m = wg.setup_manager(am, c["Tn"], hi, lo, M=c["M"], N=11, cfg=_cfg(c))
     except Exception as ex:
@@ -468,6 +500,17 @@ def e2e_cases(tier):
         d.update(M=M, errTol=errTol, pRel=pRel, thick=thick)
         d["id"] = f"{mdl['model']},Tn={mdl['Tn']:g}" + (f",tmax={mdl['thermo_tmax']}" if mdl.get("thermo_tmax") else "") + f",M={M},errTol={errTol:g},pRel={pRel:g},thick={thick:g}"
         out.append(d)
+    # root tuned to sit just below the top of the deflagration/hybrid window (Tn found at run time inside the bracket)
+    tops = [("xsm2", None, (90.5, 95.0), 2e-4), ("xsm2", None, (90.5, 95.0), 6e-4)]
+    if tier != "quick":
+        tops += [("xsm2", None, (90.5, 95.0), 1e-4), ("xsm2", None, (90.5, 95.0), 1.5e-3)]
+    for model, args, br, delta in tops:
+        for M in (20,) if tier == "quick" else (20, 30):
+            d = dict(model=model, Tn=float("nan"), Tn_bracket=list(br), tune_top=delta, M=M, errTol=1e-4, pRel=0.01, thick=5.0)
+            if args:
+                d["args"] = args
+            d["id"] = f"{model},root-{delta:g}-below-window-top,M={M},errTol=0.0001,pRel=0.01,thick=5"
+            out.append(d)
     return out
 
 
